@@ -27,99 +27,96 @@ func (source *SR) NewTransform(dest *SR) (Transformer, error) {
 	}
 
 	return func(x, y float64) (float64, float64, error) {
-		// source is captured by this closure, so it must not be changed:
-		// every call has to start from the original source.
-		source := source
-		point := []float64{x, y}
-		// Workaround for datum shifts towgs84, if either source or destination projection is not wgs84
-		if checkNotWGS(source, dest) || checkNotWGS(dest, source) {
-			wgs84, err := Parse("WGS84")
-			if err != nil {
-				return math.NaN(), math.NaN(), err
-			}
-			t, err := source.NewTransform(wgs84)
-			if err != nil {
-				return math.NaN(), math.NaN(), err
-			}
-			point[0], point[1], err = t(point[0], point[1])
-			if err != nil {
-				return math.NaN(), math.NaN(), err
-			}
-			source = wgs84
-		}
-		_, sourceInverse, err := source.Transformers()
-		if err != nil {
-			return math.NaN(), math.NaN(), err
-		}
-		destForward, _, err := dest.Transformers()
-		if err != nil {
-			return math.NaN(), math.NaN(), err
-		}
-
-		// DGR, 2010/11/12
-		if source.Axis != enu {
-			point, err = adjust_axis(source, false, point)
-			if err != nil {
-				return math.NaN(), math.NaN(), err
-			}
-		}
-		// Transform source points to long/lat, if they aren't already.
-		if source.Name == longlat {
-			point[0] *= deg2rad // convert degrees to radians
-			point[1] *= deg2rad
-		} else {
-			point[0] *= source.ToMeter
-			point[1] *= source.ToMeter
-			point[0], point[1], err = sourceInverse(point[0], point[1]) // Convert Cartesian to longlat
-			if err != nil {
-				return math.NaN(), math.NaN(), err
-			}
-		}
-		// Adjust for the prime meridian if necessary
-		if !math.IsNaN(source.FromGreenwich) {
-			point[0] += source.FromGreenwich
-		}
-
-		// Convert datums if needed, and if possible.
-		z := 0.
-		if len(point) == 3 {
-			z = point[2]
-		}
-		point[0], point[1], z, err = datumTransform(source.datum, dest.datum,
-			point[0], point[1], z)
-		if err != nil {
-			return math.NaN(), math.NaN(), err
-		}
-		if len(point) == 3 {
-			point[2] = z
-		}
-
-		// Adjust for the prime meridian if necessary
-		if !math.IsNaN(dest.FromGreenwich) {
-			point[0] -= dest.FromGreenwich
-		}
-
-		if dest.Name == longlat {
-			// convert radians to decimal degrees
-			point[0] *= r2d
-			point[1] *= r2d
-		} else { // else project
-			point[0], point[1], err = destForward(point[0], point[1])
-			if err != nil {
-				return math.NaN(), math.NaN(), err
-			}
-			point[0] /= dest.ToMeter
-			point[1] /= dest.ToMeter
-		}
-
-		// DGR, 2010/11/12
-		if dest.Axis != enu {
-			point, err = adjust_axis(dest, true, point)
-			if err != nil {
-				return math.NaN(), math.NaN(), err
-			}
-		}
-
-		return point[0], point[1], nil
+		x, y, _, err := transform(source, dest, x, y, 0)
+		return x, y, err
 	}, nil
+}
+
+// transform converts the coordinates x and y and the height z above the
+// ellipsoid from the source to the destination reference. The height does
+// not influence the projected coordinates, but it has to be carried through
+// the intermediate step in WGS84 that is taken when either side has a 3- or
+// 7-parameter datum, because that step changes it.
+func transform(source, dest *SR, x, y, z float64) (float64, float64, float64, error) {
+	nan := math.NaN()
+	point := []float64{x, y, z}
+	// Workaround for datum shifts towgs84, if either source or destination projection is not wgs84
+	if checkNotWGS(source, dest) || checkNotWGS(dest, source) {
+		wgs84, err := Parse("WGS84")
+		if err != nil {
+			return nan, nan, nan, err
+		}
+		point[0], point[1], point[2], err = transform(source, wgs84, point[0], point[1], point[2])
+		if err != nil {
+			return nan, nan, nan, err
+		}
+		source = wgs84
+	}
+	_, sourceInverse, err := source.Transformers()
+	if err != nil {
+		return nan, nan, nan, err
+	}
+	destForward, _, err := dest.Transformers()
+	if err != nil {
+		return nan, nan, nan, err
+	}
+
+	// DGR, 2010/11/12
+	if source.Axis != enu {
+		point, err = adjust_axis(source, false, point)
+		if err != nil {
+			return nan, nan, nan, err
+		}
+	}
+	// Transform source points to long/lat, if they aren't already.
+	if source.Name == longlat {
+		point[0] *= deg2rad // convert degrees to radians
+		point[1] *= deg2rad
+	} else {
+		point[0] *= source.ToMeter
+		point[1] *= source.ToMeter
+		point[0], point[1], err = sourceInverse(point[0], point[1]) // Convert Cartesian to longlat
+		if err != nil {
+			return nan, nan, nan, err
+		}
+	}
+	// Adjust for the prime meridian if necessary
+	if !math.IsNaN(source.FromGreenwich) {
+		point[0] += source.FromGreenwich
+	}
+
+	// Convert datums if needed, and if possible.
+	point[0], point[1], point[2], err = datumTransform(source.datum, dest.datum,
+		point[0], point[1], point[2])
+	if err != nil {
+		return nan, nan, nan, err
+	}
+
+	// Adjust for the prime meridian if necessary
+	if !math.IsNaN(dest.FromGreenwich) {
+		point[0] -= dest.FromGreenwich
+	}
+
+	if dest.Name == longlat {
+		// convert radians to decimal degrees
+		point[0] *= r2d
+		point[1] *= r2d
+	} else { // else project
+		point[0], point[1], err = destForward(point[0], point[1])
+		if err != nil {
+			return nan, nan, nan, err
+		}
+		point[0] /= dest.ToMeter
+		point[1] /= dest.ToMeter
+	}
+
+	// DGR, 2010/11/12
+	if dest.Axis != enu {
+		point, err = adjust_axis(dest, true, point)
+		if err != nil {
+			return nan, nan, nan, err
+		}
+	}
+
+	return point[0], point[1], point[2], nil
 }
